@@ -18,7 +18,7 @@ func budget(tier string) time.Duration {
 		}
 	}
 	if tier == "thorough" {
-		return 40 * time.Minute
+		return 100 * time.Minute
 	}
 	return 8 * time.Minute
 }
